@@ -34,6 +34,9 @@ type childCfg struct {
 	Start int `json:"start"`
 	N     int `json:"n"`
 	Lane  int `json:"lane"`
+	// Concurrent > 0: that many readers (one scripted database each) answer their cases at the same time in one
+	// process; every document is judged as usual. (The response writers share process-wide encoder pools.)
+	Concurrent int `json:"concurrent,omitempty"`
 }
 
 func Main(c *run.Ctx) {
@@ -70,6 +73,12 @@ func Main(c *run.Ctx) {
 		}(l)
 	}
 	wg.Wait()
+	// the same kind of cases with eight requests in flight
+	if out := c.RunChild(run.ChildSpec{Prop: "C15", Name: "concurrent", Cfg: childCfg{Start: total, N: c.Pick(60, 600), Concurrent: 8}, Timeout: 30 * time.Minute, MemKB: 24 << 20,
+		Env: []string{"GOMAXPROCS=2"}}); !out.Completed { // few processors: the handlers share scheduler-local caches, as on a small pod
+		c.Undecided("concurrent lane: child did not complete")
+	}
+	c.Floor("documents judged with eight requests in flight", c.Pick(200, 2000), 0)
 	for _, cl := range classNames() {
 		c.Floor("class:"+cl, c.Pick(3, 100), 0)
 	}
@@ -705,6 +714,10 @@ func Child(c *run.Ctx, name string) {
 	if err := run.ChildCfg(&cfg); err != nil {
 		panic(err)
 	}
+	if cfg.Concurrent > 0 {
+		childConcurrent(c, cfg)
+		return
+	}
 	rn := newRunner(fmt.Sprintf("c15-%d-%d", cfg.Lane, os.Getpid()))
 	minimised := map[string]bool{}
 	decoded := 0
@@ -757,6 +770,66 @@ func Child(c *run.Ctx, name string) {
 	}
 	c.Floor("documents decoded and compared", 0, decoded)
 	c.Event("requests_sent", rn.reqs)
+}
+
+// childConcurrent: several readers answer at once. A violation here is reported with the concurrency in its
+// signature when the same case is fine on its own.
+func childConcurrent(c *run.Ctx, cfg childCfg) {
+	var wg sync.WaitGroup
+	var mu sync.Mutex
+	reported := map[string]bool{}
+	for g := 0; g < cfg.Concurrent; g++ {
+		wg.Add(1)
+		rn := newRunner(fmt.Sprintf("c15-conc-%d-%d", g, os.Getpid()))
+		go func(g int, rn *runner) {
+			defer wg.Done()
+			fast := rn.cl
+			slowCl := rdcat.NewClient(rn.rd.Server.URL, 120*time.Second)
+			slowCl.SlowLink()
+			for i := 0; i < cfg.N; i++ {
+				gi := cfg.Start + g*cfg.N + i
+				r := c.Rng(fmt.Sprintf("c15/case/%d", gi))
+				// the first cases of every reader are big documents over a slow link, all at the same time: handlers
+				// are parked in the middle of a write while others build their answers
+				slow := i < 3
+				rn.cl = fast
+				if slow {
+					rn.cl = slowCl
+				}
+				cs := genCase(r, gi)
+				// mostly answers of some size (query endpoints), so that writes overlap
+				for try := 0; try < 6 && cs.nRows() < 500; try++ {
+					cs = genCase(r, gi)
+				}
+				if slow {
+					// the clients on the slow link ask for the big documents
+					cs = bigPromCase(r, gi)
+				}
+				resp, fs := rn.run(cs)
+				if slow {
+					c.Cover("concurrent lane: answers read over a slow link", fmt.Sprintf("%s/%dKiB", cs.Class, len(resp.Body)>>10>>8<<8), 1)
+				}
+				c.Floor("documents judged with eight requests in flight", 0, 1)
+				for _, f := range primary(fs) {
+					if f.Rule == "harness" || f.Rule == "no-response" {
+						continue
+					}
+					sig := cs.Class + "/" + f.Rule + "/concurrent-responses"
+					mu.Lock()
+					seen := reported[sig]
+					reported[sig] = true
+					mu.Unlock()
+					if seen {
+						c.Violation(sig, "", nil)
+						continue
+					}
+					c.Violation(sig, fmt.Sprintf("%s with %d requests in flight: %s | %s | answer: HTTP %d %s", cs.Class, cfg.Concurrent, f, cs.summary(), resp.Status, clip(string(resp.Body), 400)),
+						map[string]any{"case": cs.wire(), "status": resp.Status, "body": clip(string(resp.Body), 4000), "concurrent": cfg.Concurrent})
+				}
+			}
+		}(g, rn)
+	}
+	wg.Wait()
 }
 
 // Replay re-runs the case stored in a replay file.
